@@ -77,3 +77,16 @@ Theorem C06_source_operator_claims_validate : forall role_of url_of now (cd : cl
   src_operator_claims_validate role_of url_of now cd o vr = vr ++ map goi (v_operator_claims now role_of url_of cd o).
 Proof. exact src_operator_claims. Qed.
 Print Assumptions C06_source_operator_claims_validate.
+
+(* the unknown functions the two top-level walks consult, by name: the nkeys role predicates, the clock, url.Parse,
+   strconv.Atoi, DecodeActivationClaims - and nothing else (no cache, no global, no other decoder) *)
+Theorem C06_source_validate_consults :
+  V2.AccountClaims_Validate_consults = ["go_DecodeActivationClaims"; "go_nkeys_IsValidPublicAccountKey"; "go_nkeys_IsValidPublicCurveKey";
+    "go_nkeys_IsValidPublicUserKey"; "go_now"; "go_url_Parse"]%list /\
+  V2.OperatorClaims_Validate_consults = ["go_nkeys_IsValidPublicAccountKey"; "go_nkeys_IsValidPublicOperatorKey"; "go_now";
+    "go_strconv_Atoi"; "go_url_Parse"]%list /\
+  V2.UserClaims_Validate_consults = ["go_net_ParseCIDR"; "go_nkeys_IsValidPublicAccountKey"; "go_now"; "go_time_LoadLocation_err"; "go_time_Parse_err"]%list /\
+  V2.ActivationClaims_Validate_consults = ["go_nkeys_IsValidPublicAccountKey"; "go_now"]%list /\
+  V2.Import_Validate_consults = ["go_DecodeActivationClaims"; "go_nkeys_IsValidPublicAccountKey"; "go_now"]%list.
+Proof. repeat split; reflexivity. Qed.
+Print Assumptions C06_source_validate_consults.
